@@ -328,7 +328,9 @@ func pruneCache(root, keep string) {
 	}
 	sort.Slice(gens, func(i, j int) bool { return gens[i].mod.After(gens[j].mod) })
 	for i, g := range gens {
-		if i >= 1 {
+		// keep the most recent other generation, and anything younger than two hours: another
+		// check (a mutant run, a background run) may be using it right now
+		if i >= 1 && time.Since(g.mod) > 2*time.Hour {
 			os.RemoveAll(filepath.Join(root, g.name))
 		}
 	}
